@@ -516,7 +516,9 @@ class RaggedArray(IndexableArray, np.lib.mixins.NDArrayOperatorsMixin):
     def _arg_extreme(self, extremes):
         if np.any(self.lengths == 0):
             raise ValueError("attempt to get argmax/argmin of an empty row")
-        rows, cols = np.nonzero(self == extremes)
+        # a row that contains NaN has NaN as its extreme, which compares unequal to itself
+        hits = (self == extremes) | ((self != self) & (extremes != extremes))
+        rows, cols = np.nonzero(hits)
         _, idxs = np.unique(rows, return_index=True)
         return cols[idxs]
 
